@@ -311,7 +311,7 @@ struct CountingAlloc {
   explicit CountingAlloc(AllocLedger* led) noexcept : l(led) {}
   template <class U> CountingAlloc(const CountingAlloc<U>& o) noexcept : l(o.l) {}
   T* allocate(size_t n) {
-    W().throw_point("allocation");
+    if (world_ptr()) W().throw_point("allocation");
     void* p = ::operator new(n * sizeof(T), std::align_val_t(alignof(T) > 16 ? alignof(T) : 16));
     if (l) { l->allocs++; l->bytes_live += (long)(n * sizeof(T)); l->blocks[p] = n * sizeof(T); }
     return static_cast<T*>(p);
